@@ -187,17 +187,41 @@ func parseRaceLogs(prefix string, anchors []string) (reports []raceReport) {
 				continue
 			}
 			seen[key] = true
+			// Related iff an anchor matches the accessing code of one of the two accesses: the first two frames
+			// of repository code in each access stack (callers further up and goroutine creation sites do not count).
 			rel := false
-			for _, re := range res {
-				if re.MatchString(b) {
-					rel = true
-					break
+			for _, fr := range accessFrames(b) {
+				for _, re := range res {
+					if re.MatchString(fr) {
+						rel = true
+					}
 				}
 			}
 			reports = append(reports, raceReport{Text: lineNoRe.ReplaceAllString(b, ""), Related: rel, Key: key})
 		}
 	}
 	return reports
+}
+
+// accessFrames returns, for each access stack of a race report (Read/Write/Previous ... at ... by ...), the
+// first two frames that lie in the repository under test.
+func accessFrames(block string) []string {
+	var out []string
+	inAccess, taken := false, 0
+	for _, l := range strings.Split(block, "\n") {
+		t := strings.TrimSpace(l)
+		switch {
+		case strings.HasPrefix(t, "Read at") || strings.HasPrefix(t, "Write at") || strings.HasPrefix(t, "Previous read at") || strings.HasPrefix(t, "Previous write at") ||
+			strings.HasPrefix(t, "Atomic") || strings.HasPrefix(t, "Previous atomic"):
+			inAccess, taken = true, 0
+		case t == "" || strings.HasPrefix(t, "Goroutine"):
+			inAccess = false
+		case inAccess && taken < 2 && strings.Contains(t, "github.com/mycoria/mycoria/") && !strings.HasPrefix(t, "/"):
+			out = append(out, t)
+			taken++
+		}
+	}
+	return out
 }
 
 func runWorker(bin string, id string, tier Tier, race bool, timeout time.Duration, onlyCase string) (exp *Export, crashed bool, timedOut bool, logPath string, raceLogPrefix string, err error) {
